@@ -1285,6 +1285,16 @@ def discharge(hyps, goal, timeout_ms, quick=False):
     (C) nlsat tactic, then cvc5 / z3 4.8 on an SMT-LIB dump."""
     ver = 'z3-' + z3.get_version_string()
     nfresh = 1
+    # (A0) polynomial identities: lhs - rhs normalises to 0 (sum-of-monomials normal form of the simplifier)
+    try:
+        gs = z3.simplify(goal)
+        if z3.is_eq(gs) and z3.is_arith(gs.arg(0)):
+            dlt = z3.simplify(gs.arg(0) - gs.arg(1), som=True)
+            n0 = _num(dlt)
+            if n0 is not None and n0 == 0:
+                return 'proved', None, ver + ' simplifier (polynomial normal form)', ''
+    except z3.Z3Exception:
+        pass
     try:
         c = _CTX[0]
         abst = c.__dict__.setdefault('_abst', _Abstraction()) if c is not None else None
